@@ -267,7 +267,7 @@ def coq_cases(hists, core, tag):
         if len(rows) != len(h) or any(len(r) != 4 for r in rows):
             res.append(None)
             continue
-        names = {"-": "-", "I": "failed_import_poisons_module", "U": "open_upvalue_after_failed_run"}
+        names = {"-": "-", "I": "failed_import_poisons_module"}
         res.append({"items": " ".join(RENDER[s] for s in h), "spec": [r[0] for r in rows],
                     "mech": [(r[0] if r[1] == "=" else r[1]) + ";cs=" + r[2] for r in rows], "known": [names[r[3]] for r in rows]})
     return res
